@@ -153,20 +153,30 @@ def choose_parameters(rng, cat, with_invalid, ndim=None):
     return chosen
 
 
-def setup_case(ctx, rng, sampler, with_invalid, tag, exact=False, ndim=None):
-    """World, monitored model, declared priors (in fitted order), observation layout."""
-    spec = L.draw_world(rng)
+def setup_case(ctx, rng, sampler, with_invalid, tag, exact=False, ndim=None, probe_ok=False):
+    """World, monitored model, declared priors (in fitted order), observation layout.
+    probe_ok='force': a world in which part of the prior range of the Guillot ``alpha`` gives an atmosphere that is
+    accepted but NaN (alpha above one with kappa_v1 well above kappa_v2), ``alpha`` among the fitted parameters."""
+    force = probe_ok == 'force'
+    spec = L.draw_world(rng, tkind='guillot' if force else None)
+    if force:
+        spec['temperature']['kappa_v1'] = float(spec['temperature']['kappa_v2'] * rng.uniform(5.0, 20.0))
     L.install(spec)
     model = L.build(spec)
     cat = L.catalogue(spec, model)
+    if force:
+        cat.pop('kappa_v1', None)
     chosen = choose_parameters(rng, cat, with_invalid, ndim)
+    if force and 'alpha' in cat and 'alpha' not in chosen:
+        chosen = ['alpha'] + chosen[:-1] if len(chosen) > 1 else ['alpha']
     order = [n for n in model.fittingParameters if n in chosen]
     decls = []
     for n in order:
         kind = None
         if exact:
             kind = ['mode-linear', 'Uniform', 'Gaussian', 'mode-log'][rng.integers(0, 4)]
-        decls.append(L.declare_prior(rng, n, cat[n], with_invalid, kind=kind))
+        decls.append(L.declare_prior(rng, n, cat[n], with_invalid, kind=kind,
+                                     probe_ok=('force' if (force and n == 'alpha') else bool(probe_ok)) and not exact))
     wn = next(iter(spec['tables'].values()))['wn']
     layout = L.draw_obs_layout(rng, wn)
     return spec, model, decls, layout
@@ -396,7 +406,9 @@ def wl_sequence(ctx, rng):
     with_invalid = bool(rng.random() < 0.65)
     ndim = [1, 5, None, None, None][ctx.case['index'] % 5]
     tag = 'seq%d' % ctx.case['index']
-    spec, model, decls, layout = setup_case(ctx, rng, sampler, with_invalid, tag, ndim=ndim)
+    # every sixth case: a world built so that part of a prior range is accepted-but-NaN (see setup_case)
+    spec, model, decls, layout = setup_case(ctx, rng, sampler, with_invalid, tag, ndim=ndim,
+                                            probe_ok='force' if ctx.case['index'] % 6 == 3 else True)
     if layout is None:
         ctx.event('domain-skip:no-layout-with-width-condition')
         return
